@@ -1052,7 +1052,7 @@ func checkHookMapsRecreated(r *Run, rule, onlyType string) {
 				}
 			case *ssa.Store:
 				if _, isMk := x.Val.(*ssa.MakeMap); isMk {
-					if k := key(x.Addr); k != "" {
+					if k := key(x.Addr); k != "" && !lazyInitStore(fn, x) {
 						reset[k] = true
 					}
 				}
@@ -1696,9 +1696,84 @@ func checkDirtyCount(r *Run, rule string) {
 	}
 	r.Check(len(incs) > 0 && skipped == "", rule, fname(add), "the per-address entry count grows by one on every path", "changes++ (or a new entry with count 1) on every path to the return",
 		"addDirty can return (at "+skipped+") without adding one to the address's count: the count no longer equals the number of live journal entries, so reverting one entry of an address that was changed before drops it from the dirty list and Finalise does not persist its earlier changes", p.pos(add.Pos()))
-	sub := p.MustFn("(*vm.journal).substractDirty")
-	r.Check(len(step(sub, token.SUB)) > 0, rule, fname(sub), "the per-address entry count shrinks by one", "changes--",
-		"substractDirty no longer takes one off the address's count: reverted entries keep their address dirty", p.pos(sub.Pos()))
+	// the revert side, found by role: the functions journal.revert runs (itself and its same-package helpers, two levels)
+	rev := p.MustFn("(*vm.journal).revert")
+	fns := []*ssa.Function{rev}
+	seenF := map[*ssa.Function]bool{rev: true}
+	for d, frontier := 0, []*ssa.Function{rev}; d < 2; d++ {
+		var next []*ssa.Function
+		for _, f := range frontier {
+			allInstrs(f, func(ins ssa.Instruction) {
+				if g := staticCallee(ins); g != nil && g.Blocks != nil && g.Pkg == rev.Pkg && !seenF[g] {
+					if g.Signature.Recv() != nil && strings.HasSuffix(tname(g.Signature.Recv().Type()), "vm.journal") {
+						seenF[g] = true
+						fns = append(fns, g)
+						next = append(next, g)
+					}
+				}
+			})
+		}
+		frontier = next
+	}
+	nDec := 0
+	for _, f := range fns {
+		nDec += len(step(f, token.SUB))
+	}
+	r.Check(nDec > 0, rule, fname(rev), "reverting an entry takes one off its address's count", "changes-- on the revert path",
+		"reverting a journal entry no longer takes one off the address's entry count: the count stops matching the live entries", p.pos(rev.Pos()))
+	// an address leaves the dirty list only when its count reached zero
+	isCount := func(v ssa.Value) bool {
+		return derivesFrom(v, func(y ssa.Value) bool {
+			if c, ok := y.(*ssa.Call); ok && calleeName(c) == "(*vm.journal).getDirty" {
+				return true
+			}
+			ld, ok := y.(*ssa.UnOp)
+			return ok && ld.Op == token.MUL && isChanges(ld.X)
+		})
+	}
+	nDel := 0
+	for _, f := range fns {
+		f := f
+		zero := condEdges(f, func(cond ssa.Value, _ *ssa.If) int {
+			v, flip := stripNot(cond)
+			bo, ok := v.(*ssa.BinOp)
+			if !ok {
+				return 0
+			}
+			var op token.Token
+			if k, isK := intConst(bo.Y); isK && k == 0 && isCount(bo.X) {
+				op = bo.Op
+			} else if k, isK := intConst(bo.X); isK && k == 0 && isCount(bo.Y) {
+				op = mirror(bo.Op)
+			} else {
+				return 0
+			}
+			pol := 0
+			switch op {
+			case token.EQL, token.LEQ:
+				pol = 1
+			case token.NEQ, token.GTR:
+				pol = -1
+			}
+			if flip {
+				pol = -pol
+			}
+			return pol
+		})
+		live := reachWithout(f, zero)
+		allInstrs(f, func(ins ssa.Instruction) {
+			c, ok := ins.(*ssa.Call)
+			if !ok || calleeName(c) != "(*vm.journal).deleteDirty" {
+				return
+			}
+			nDel++
+			r.Check(len(zero) > 0 && !live[c.Block()], rule, fname(f), "an address leaves the dirty list only when its entry count is zero", "deleteDirty behind a count == 0 test",
+				"a reverted entry removes its address from the dirty list although earlier, still live entries of the same address remain: Finalise then skips the address and its surviving changes (nonce bump, gas payment) are never written", p.ipos(c))
+		})
+	}
+	if nDel == 0 {
+		r.Viol(rule, fname(rev), "dirty list maintenance on revert", "journal.revert never removes an address from the dirty list: every reverted address stays dirty", p.pos(rev.Pos()), nil)
+	}
 }
 
 // ---- C02.btcend -----------------------------------------------------------------------------------------------------
@@ -2833,5 +2908,81 @@ func checkSliceBounds(r *Run, pkgs ...string) {
 	}
 	if n < 5 {
 		fail("C18.slice: only %d constant-bound slice expressions found in the parser packages", n)
+	}
+}
+
+// lazyInitStore: the store is reachable only through the "field == nil" edge of a test on the very field it writes: an
+// allocate-if-missing, which keeps the existing content, not a reset.
+func lazyInitStore(fn *ssa.Function, st *ssa.Store) bool {
+	pa := pathOf(st.Addr)
+	lazy := condEdges(fn, func(cond ssa.Value, _ *ssa.If) int {
+		return nilCond(cond, func(y ssa.Value) bool {
+			pb := pathOf(y)
+			return pb.Root == pa.Root && pb.FieldString() == pa.FieldString()
+		})
+	})
+	return len(lazy) > 0 && !reachWithout(fn, lazy)[st.Block()]
+}
+
+// ---- *.live ---------------------------------------------------------------------------------------------------------
+//
+// A predicate that guards a handler's effects (frozen, active) must answer from the live layered state: the open
+// transaction, the block overlay, then the tree. A read of a committed version (GetVersioned / GetPrevious) does not see
+// what earlier transactions or the BeginBlock hook of the same block wrote, so a freeze applied in this block would not
+// bind the transactions delivered in it.
+func checkLivePredicates(r *Run, rule string, names ...string) {
+	p := r.P
+	for _, n := range names {
+		fn := p.MustFn(n)
+		var path []string
+		seen := map[*ssa.Function]bool{}
+		noEnv := func(ssa.Value) (int64, bool) { return 0, false }
+		var walk func(f *ssa.Function, env IntEnv, d int) string
+		walk = func(f *ssa.Function, env IntEnv, d int) string {
+			if f.Blocks == nil || d > 4 {
+				return ""
+			}
+			// only the instructions that can execute under the constant arguments of this call
+			first := f.Blocks[0].Instrs[0]
+			feasible := reachUnderEnv(first, env, nil)
+			feasible[first] = true
+			bad := ""
+			allInstrs(f, func(ins ssa.Instruction) {
+				if bad != "" || !feasible[ins] {
+					return
+				}
+				c, ok := ins.(*ssa.Call)
+				if !ok {
+					return
+				}
+				switch calleeName(c) {
+				case "(*storage.State).GetVersioned", "(*storage.State).GetPrevious", "(*storage.ChainState).GetVersioned", "(*storage.ChainState).Get":
+					bad = p.ipos(c)
+					return
+				}
+				if g := c.Call.StaticCallee(); g != nil && inRepo(g) && fnPkg(g) != nil && !strings.HasSuffix(fnPkg(g).Path(), "/storage") {
+					consts := map[ssa.Value]int64{}
+					for i, a := range c.Call.Args {
+						if i < len(g.Params) {
+							if k, isK := intConst(a); isK {
+								consts[g.Params[i]] = k
+							} else if k, isK := env(a); isK {
+								consts[g.Params[i]] = k
+							}
+						}
+					}
+					sub := func(v ssa.Value) (int64, bool) { k, ok := consts[v]; return k, ok }
+					if b := walk(g, sub, d+1); b != "" {
+						path = append(path, fname(g))
+						bad = b
+					}
+				}
+			})
+			return bad
+		}
+		_ = seen
+		bad := walk(fn, noEnv, 0)
+		r.Check(bad == "", rule, fname(fn), "the guard predicate reads the live state", "no read of a committed version on any path of the predicate",
+			"the predicate reads a committed version of the store (at "+bad+"): a record written earlier in the same block (by a transaction or by the BeginBlock hook) is not seen, so the guard lets a transaction through that the current state forbids", bad)
 	}
 }
